@@ -263,6 +263,17 @@ def run_case(case, ctx, st):
         sc = est.score(X)
         if not np.isfinite(sc):
             bad.append(("score-nonfinite", sc))
+        if name not in gen.NONPARAMETRIC:
+            # "batches of one sample", "duplicated samples": the score of one row, of copies of one row, of a slice of the
+            # data (clusters the model knows may simply not occur in what is scored)
+            j = int(rng.integers(0, n))
+            for tag, Xs in (("one-sample", X[j:j + 1]), ("copies-of-one-sample", np.repeat(X[j:j + 1], 3, axis=0)),
+                            ("slice", X[: max(1, n // 3)])):
+                ctx.count("small_batch_scores")
+                s2 = est.score(np.array(Xs, copy=True))
+                if not np.isfinite(s2):
+                    bad.append(("score-nonfinite-on-" + tag, {"score": s2, "rows": len(Xs)}))
+                    break
         if hist is not None:
             bw, geminis, pens, alphas, nfeat = hist
             if not (all(np.all(np.isfinite(w)) for w in bw) and np.all(np.isfinite(geminis)) and np.all(np.isfinite(pens))
